@@ -227,7 +227,7 @@ class Workbook:
         self.ctx = ctx
         self.world = world if world is not None else World()
         self.world.max_depth = 150
-        self.world.budget = 3000000
+        self.world.budget = 800000
         self.world.call_counts = {}
         import sys
         if sys.getrecursionlimit() < 30000:
